@@ -63,6 +63,8 @@ func (o c05Operand) wire() string {
 			return "b:" + o.rat.Num().String()
 		case "R":
 			return "r:" + o.rat.Num().String()
+		case "O":
+			return "o:" + o.rat.Num().String()
 		}
 		return "q:" + o.rat.Num().String()
 	}
@@ -97,6 +99,8 @@ func (o c05Operand) rep() string {
 			}
 		case "R":
 			return "irat" // a ratio object with denominator 1, e.g. (coerce 5 'ratio)
+		case "O":
+			return "oct" // an integer 0..255 held in an octet, (coerce 5 'octet)
 		}
 	}
 	return c05Rep(o.rat)
@@ -136,6 +140,8 @@ func (o c05Operand) object() slip.Object {
 			return (*slip.Bignum)(new(big.Int).Set(o.rat.Num()))
 		case "R":
 			return (*slip.Ratio)(new(big.Rat).Set(o.rat))
+		case "O":
+			return slip.Octet(byte(o.rat.Num().Int64()))
 		}
 		if o.rat.Num().IsInt64() {
 			return slip.Fixnum(o.rat.Num().Int64())
@@ -446,6 +452,8 @@ func (cs c05Case) lisp() string {
 				parts = append(parts, "(coerce "+a.rat.RatString()+" 'bignum)")
 			case a.form == "R" && a.rat.IsInt():
 				parts = append(parts, "(coerce "+a.rat.RatString()+" 'ratio)")
+			case a.form == "O" && a.rat.IsInt():
+				parts = append(parts, "(coerce "+a.rat.RatString()+" 'octet)")
 			default:
 				parts = append(parts, a.rat.RatString())
 			}
@@ -761,12 +769,12 @@ func c05ParseRequest(req string) (c05Case, bool) {
 	for _, a := range w[2:] {
 		kind, v, _ := strings.Cut(a, ":")
 		switch kind {
-		case "q", "b", "r":
+		case "q", "b", "r", "o":
 			r, ok := new(big.Rat).SetString(v)
 			if !ok {
 				return cs, false
 			}
-			cs.args = append(cs.args, c05Operand{rat: r, kind: "q", form: map[string]string{"q": "", "b": "B", "r": "R"}[kind]})
+			cs.args = append(cs.args, c05Operand{rat: r, kind: "q", form: map[string]string{"q": "", "b": "B", "r": "R", "o": "O"}[kind]})
 		case "d":
 			var bits uint64
 			_, _ = fmt.Sscanf(v, "%x", &bits)
@@ -1156,6 +1164,43 @@ func runC05(c *lib.Ctx) {
 				if cs := (c05Case{op, []c05Operand{b, a}, true}); b.form == "" && smallEnough(cs) {
 					cases = append(cases, cs)
 					nRepCells++
+				}
+			}
+		}
+	}
+	// --- single-cause sweep, octet cells: an octet ((coerce n 'octet), an element of an octets vector) is an
+	// integer of the language; the operators that accept one must treat it as the integer it is (no
+	// wrap-around at 8 bits). Operators that reject octets with a type-error are not offered any.
+	nOctetCells := 0
+	var octets []c05Operand
+	for _, v := range []string{"0", "1", "2", "3", "127", "128", "254", "255"} {
+		octets = append(octets, c05Int(v).asForm("O"))
+	}
+	octetPartners := []c05Operand{c05Int("0"), c05Int("1"), c05Int("-1"), c05Int("255"), c05Int("256"), c05Int("9223372036854775807"),
+		c05Int("18446744073709551616"), c05RatioS("1", "2"), c05RatioS("511", "2")}
+	for _, op := range c05Ops {
+		switch op.name {
+		case "1+", "1-", "plusp", "minusp", "zerop", "evenp", "oddp", "signum":
+			for _, a := range octets {
+				cases = append(cases, c05Case{op, []c05Operand{a}, true})
+				nOctetCells++
+			}
+		case "ash":
+			for _, a := range octets {
+				for _, k := range []string{"-9", "-8", "-1", "0", "1", "7", "8", "55", "56", "57", "64"} {
+					cases = append(cases, c05Case{op, []c05Operand{a, c05Int(k)}, true})
+					nOctetCells++
+				}
+			}
+		case "<", "<=", ">", ">=", "=", "/=":
+			for _, a := range octets {
+				for _, b := range append(append([]c05Operand{}, octets...), octetPartners...) {
+					cases = append(cases, c05Case{op, []c05Operand{a, b}, true}, c05Case{op, []c05Operand{b, a}, true})
+					nOctetCells += 2
+				}
+				for _, f := range []c05Operand{c05Double(255), c05Double(254.5), c05Single(128), c05Double(0), c05Double(-0.5)} {
+					cases = append(cases, c05Case{op, []c05Operand{a, f}, true}, c05Case{op, []c05Operand{f, a}, true})
+					nOctetCells += 2
 				}
 			}
 		}
@@ -1567,6 +1612,7 @@ func runC05(c *lib.Ctx) {
 	c.Ev.Coverage["histories_seed_independent"] = nHistDet
 	c.Ev.Coverage["history_calls"] = nHistCalls
 	c.Ev.Coverage["grid_triple_cases"] = nGridTriples
+	c.Ev.Coverage["sweep_octet_cases"] = nOctetCells
 	c05Dump(c)
 	c.Ev.Coverage["traces_validated_against_impl"] = total
 	c.Ev.Coverage["agreements"] = agree
